@@ -386,3 +386,11 @@ End LE.
 From Droop Require Import Gen.FixedKernels Gen.GuardedKernels.
 Lemma vmin_fold_fixed p d : vmin_is_fold (Fixed p d).
 Proof. intros x l. cbn [Fixed vmin ltv]. unfold FixedKernels.min, py_min_by. cbn [bind unres]. reflexivity. Qed.
+
+From Droop Require Import Proofs.ArithEq.
+Lemma vmin_minimal_guard0 p d s S (ZL : zlike (Guarded p 0 d s) S) : 1 <= p -> 0 <= d ->
+  exact (Guarded p 0 d s) = false -> vmin_minimal (Guarded p 0 d s) S ZL.
+Proof.
+  intros Hp Hd. revert ZL. rewrite (guard0_is_fixed p d s Hp Hd). intros ZL Hex.
+  exact (vmin_fold_minimal (Fixed p d) S ZL Hex (vmin_fold_fixed p d)).
+Qed.
